@@ -3,6 +3,7 @@ import collections
 import random
 from lib import common, cstage, tsgen
 from lib.vals import *
+from checks.c01 import parse_canon_val
 
 THEOREMS = ["C09_refuted_sanitised_paths_collide", "C09_kept_apart_except_known", "C09_nonvacuous"]
 IMPORTS = "From Beff Require Import Model.Names."
@@ -90,6 +91,41 @@ def check(run):
                      ("model.ts", 'import { %s } from "./values";\ntype %s = typeof %s;\nexport type X = { t: %s; n: number };' % (nm, nm, nm, nm)),
                      ("values.ts", 'export const %s = "%s" as const;' % (nm, lit))]
         values.append((single, multi, "local-type-shadows-imported-value"))
+    # barrels: a diamond of `export *` (the shared module is reached twice; names of a module listed after it must still be found),
+    # export lists carrying a type and a value under one name, an explicit re-export next to an `export *` of the same name
+    for i in range(18 if quick else 300):
+        kind = i % 3
+        t1, t2 = r.sample(["string", "number", "boolean"], 2)
+        if kind == 0:
+            decl_common = "export type Common = { id: %s };" % t1
+            decl_lines = 'export type Line = { sku: string; qty: %s };\nexport const STATES = { open: "o", done: "d" } as const;' % t2
+            use = "export type X = { c: Common; l: Line; s: typeof STATES };\nparse.buildParsers<{ X: X, L: Line }>();"
+            single = [("entry.ts", decl_common + "\n" + decl_lines + "\n" + use)]
+            order_lines = ['export * from "./common";', 'export * from "./lines";']
+            index_lines = ['export * from "./user";', 'export * from "./order";']
+            if r.random() < 0.3: order_lines.reverse()
+            if r.random() < 0.3: index_lines.reverse()
+            multi = [("entry.ts", 'import { Common, Line, STATES } from "./index";\n' + use),
+                     ("index.ts", "\n".join(index_lines)), ("user.ts", 'export * from "./common";\nexport type User = { n: string };'),
+                     ("order.ts", "\n".join(order_lines)), ("common.ts", decl_common), ("lines.ts", decl_lines)]
+            style = "diamond-of-export-star"
+        elif kind == 1:
+            body = 'enum E { A = "a", B = "b" }\nconst K = "k" as const;\ntype K = { k: typeof K; n: %s };' % t1
+            use = "export type X = { e: E; a: typeof E.A; k: K; v: typeof K };\nparse.buildParsers<{ X: X }>();"
+            single = [("entry.ts", body + "\n" + use)]
+            multi = [("entry.ts", 'import { E, K } from "./m0";\n' + use), ("m0.ts", body + "\nexport { E, K };")]
+            if r.random() < 0.4:
+                multi = [("entry.ts", 'import { E, K } from "./barrel";\n' + use), ("barrel.ts", 'export { E, K } from "./m0";'), ("m0.ts", body + "\nexport { E, K };")]
+            style = "export-list-with-type-and-value"
+        else:
+            use = "export type X = { t: T; u: U };\nparse.buildParsers<{ X: X }>();"
+            single = [("entry.ts", "export type T = %s;\nexport type U = %s[];\n" % (t2, t1) + use)]
+            lines = ['export * from "./a";', 'export { T } from "./other";']
+            if r.random() < 0.5: lines.reverse()
+            multi = [("entry.ts", 'import { T, U } from "./b";\n' + use), ("b.ts", "\n".join(lines)),
+                     ("a.ts", "export type T = %s;\nexport type U = %s[];" % (t1, t1)), ("other.ts", "export type T = %s;" % t2)]
+            style = "explicit-re-export-shadows-export-star"
+        values.append((single, multi, style))
     # unresolvable references must be diagnostics
     unresolved = []
     for i in range(20 if quick else 200):
@@ -209,6 +245,22 @@ def check(run):
         "import/export binding (bind_exports.rs, frontend walkers) is observed through H-compile, not modelled",
         "import specifiers are resolved by the harness rule ./x -> x.ts (the host's resolver is outside the property)"]
     for kf in known:
+        w = eval(kf["witness"], {"__builtins__": {}}, {})
+        if "multi" in w:
+            # a split project against its single-file form: the split one must compile to validators with the same answers
+            rs = cstage.compile_projects([w["single"], w["multi"]])
+            failing = rs[0].get("outcome") == "code" and rs[1].get("outcome") != "code"
+            if rs[0].get("outcome") == "code" and rs[1].get("outcome") == "code":
+                vals = [parse_canon_val(x) for x in w.get("values", [])]
+                es = cstage.eval_modules([(rs[0]["code"], {w["parser"]: vals}, []), (rs[1]["code"], {w["parser"]: vals}, [])])
+                failing = "error" in es[1] or ("error" not in es[0] and es[0][w["parser"]]["validate"] != es[1][w["parser"]]["validate"])
+            if kf.get("kind") == "known" and failing:
+                run.known("class=%s %s" % (kf["class"], kf["what"]))
+                cov["known_findings_reproduced"].append(kf["class"])
+            if kf.get("kind") == "fixed" and failing:
+                fails.append(("fixed-finding-returned:" + kf["class"], {"single_file": w["single"][0][1], "files": dict(w["multi"]),
+                                                                         "split_outcome": rs[1].get("outcome"), "diagnostics": rs[1].get("diags")}))
+            continue
         if kf.get("kind") == "known":
             files = [("entry.ts", 'import {X as X1} from "./a-b"; import {X as X2} from "./a_b";\nparse.buildParsers<{ P: X1, Q: X2 }>();'),
                      ("a-b.ts", "export type X = { a: string };"), ("a_b.ts", "export type X = { b: number };")]
